@@ -728,6 +728,29 @@ func TestFieldSweep(t *testing.T) {
 			}
 		}
 	}
+	// signature parameters: every kind of edit, with validity and certificate URLs of lengths
+	// around 255 / 256 and in the kilobytes (an edit in the tail of a long URL must count)
+	for _, v := range []string{"1b1", "1b2", "1b3"} {
+		for _, n := range []int{30, 254, 255, 256, 257, 1000, 8000} {
+			pad := strings.Repeat("v", n)
+			sp := sxgkit.Spec{Version: v, URL: "https://a.example/p?q=1", Method: "GET", Status: 200,
+				ResHeaders: []gen.HeaderKV{{Name: "Content-Type", Values: []string{"text/html"}}},
+				PayloadLen: 40, PayloadTag: 5, RecordSize: 16, Fixture: n % 2, Date: 1_700_000_000, Expires: 1_700_000_000 + 86400,
+				ValidityURL: "https://a.example/" + pad[:n-18], CertURL: "https://c.example/" + pad[:n-18]}
+			muts := []Mut{{Class: "none"}}
+			for _, prm := range []string{"date", "expires", "integrity", "validity-url", "cert-url", "label"} {
+				muts = append(muts, Mut{Class: "sig-param", Param: prm, Value: "x", N: 1})
+			}
+			muts = append(muts, Mut{Class: "sig-param", Param: "cert-sha256", Variant: "suffix"}, Mut{Class: "sig-param", Param: "cert-sha256", Variant: "truncate"},
+				Mut{Class: "sig-param", Param: "sig", Variant: "flip", Pos: 9, Bit: 1}, Mut{Class: "sig-param", Param: "sig", Variant: "trailing"})
+			for _, m := range muts {
+				total++
+				if !prop.One(t, Case{Spec: sp, Mut: m, Time: "mid"}) {
+					return
+				}
+			}
+		}
+	}
 	vh.Count("tamper", "field-sweep-cases", int64(total))
 }
 
